@@ -122,6 +122,89 @@ theorem total_order_laws (E : Elem T) (h : E.Lawful) :
     rw [h.swap a b]
     cases E.cmp a b <;> simp [Ordering.swap]
 
+/-- **`max`, `min`** (the provided methods of `Ord`, which the selectors' `Iterator::max/min` and user code rely on) pick
+    by the same order: `max` returns an operand that is not below the other one - the *second* on a tie -, `min` one
+    that is not above - the *first* on a tie. -/
+theorem max_min_follow_cmp (E : Elem T) (h : E.Lawful) (a b : T) :
+    E.max a b = (if E.cmp a b = .gt then a else b) ∧ E.min a b = (if E.cmp a b = .gt then b else a) := by
+  have hlt := (operators_agree E h b a).2.1
+  have hsw := h.swap a b
+  unfold Elem.max Elem.min
+  cases hc : E.cmp a b <;> rw [hc] at hsw <;> simp only [Ordering.swap] at hsw
+  · have : ¬ E.lt b a = true := by rw [hlt, hsw]; simp
+    simp [this]
+  · have : ¬ E.lt b a = true := by rw [hlt, hsw]; simp
+    simp [this]
+  · have : E.lt b a = true := by rw [hlt, hsw]
+    simp [this]
+
+/-- **`clamp`** with valid bounds (`lo <= hi` in the type's own order) returns `x` when it lies within the bounds and the
+    violated bound otherwise; with invalid bounds it panics (`none`).  The result always lies within the bounds. -/
+theorem clamp_spec (E : Elem T) (h : E.Lawful) (x lo hi : T) :
+    (E.cmp lo hi = .gt → E.clamp x lo hi = none) ∧
+    (E.cmp lo hi ≠ .gt → ∃ r, E.clamp x lo hi = some r ∧
+      r = (if E.cmp x lo = .lt then lo else if E.cmp x hi = .gt then hi else x) ∧
+      E.cmp lo r ≠ .gt ∧ E.cmp r hi ≠ .gt) := by
+  have hle := (operators_agree E h lo hi).2.2.1
+  have hlt := (operators_agree E h x lo).2.1
+  have hgt := (operators_agree E h x hi).2.2.2.1
+  obtain ⟨hrefl, _, htrans, _⟩ := total_order_laws E h
+  constructor
+  · intro hc
+    have : ¬ E.le lo hi = true := by rw [hle]; simp [hc]
+    simp [Elem.clamp, this]
+  · intro hc
+    have hl : E.le lo hi = true := hle.mpr hc
+    refine ⟨_, by simp only [Elem.clamp, hl, if_true]; rfl, ?_, ?_⟩
+    · by_cases h1 : E.cmp x lo = .lt
+      · simp [hlt.mpr h1, h1]
+      · have : ¬ E.lt x lo = true := by rw [hlt]; exact h1
+        by_cases h2 : E.cmp x hi = .gt
+        · simp [this, h1, hgt.mpr h2, h2]
+        · have g : ¬ E.gt x hi = true := by rw [hgt]; exact h2
+          simp [this, h1, g, h2]
+    · by_cases h1 : E.lt x lo = true
+      · simp only [h1, if_true]; exact ⟨by simp [hrefl lo], hc⟩
+      · simp only [h1]
+        have hxlo : E.cmp x lo ≠ .lt := fun c => h1 (hlt.mpr c)
+        have hlox : E.cmp lo x ≠ .gt := by
+          rw [h.swap x lo]; cases hh : E.cmp x lo <;> simp_all [Ordering.swap]
+        by_cases h2 : E.gt x hi = true
+        · simp only [h2, if_true]; exact ⟨hc, by simp [hrefl hi]⟩
+        · simp only [h2]
+          exact ⟨hlox, fun c => h2 (hgt.mpr c)⟩
+
+/-- **`clamp` on errors** uses the reversed order throughout: bounds are valid when the *smaller* error is the upper
+    bound, and the result is the inner clamp with the bounds exchanged.  (An `Error::clamp` that forwards to the inner
+    value without exchanging the bounds panics on valid bounds and accepts invalid ones.) -/
+theorem error_clamp (E : Elem T) (h : E.Lawful) (x lo hi : T) :
+    (Error.elem E).clamp ⟨x⟩ ⟨lo⟩ ⟨hi⟩ = (E.clamp x hi lo).map Error.mk := by
+  have hE := error_lawful E h
+  obtain ⟨n1, s1⟩ := clamp_spec (Error.elem E) hE ⟨x⟩ ⟨lo⟩ ⟨hi⟩
+  obtain ⟨n2, s2⟩ := clamp_spec E h x hi lo
+  have hsw : E.cmp hi lo = (E.cmp lo hi).swap := h.swap lo hi
+  have hc : (Error.elem E).cmp ⟨lo⟩ ⟨hi⟩ = (E.cmp lo hi).swap := rfl
+  by_cases hv : E.cmp hi lo = .gt
+  · have : (Error.elem E).cmp ⟨lo⟩ ⟨hi⟩ = .gt := by rw [hc, ← hsw]; exact hv
+    rw [n1 this, n2 hv]; rfl
+  · have hv' : (Error.elem E).cmp ⟨lo⟩ ⟨hi⟩ ≠ .gt := by rw [hc, ← hsw]; exact hv
+    obtain ⟨r1, e1, d1, _, _⟩ := s1 hv'
+    obtain ⟨r2, e2, d2, _, _⟩ := s2 hv
+    rw [e1, e2, d1, d2]
+    simp only [Option.map_some, Option.some.injEq]
+    have c1 : (Error.elem E).cmp ⟨x⟩ ⟨lo⟩ = (E.cmp x lo).swap := rfl
+    have c2 : (Error.elem E).cmp ⟨x⟩ ⟨hi⟩ = (E.cmp x hi).swap := rfl
+    rw [c1, c2]
+    obtain ⟨_, _, htrans, _⟩ := total_order_laws E h
+    -- x above lo (as values) and x below hi cannot both hold when hi <= lo
+    cases hxl : E.cmp x lo <;> cases hxh : E.cmp x hi <;> simp [Ordering.swap]
+    -- remaining case: x > lo and x < hi with hi <= lo: contradiction
+    exfalso
+    have a1 : E.cmp lo x ≠ .gt := by rw [h.swap x lo, hxl]; simp [Ordering.swap]
+    have a2 : E.cmp hi x ≠ .gt := htrans hi lo x hv a1
+    rw [h.swap x hi, hxh] at a2
+    simp [Ordering.swap] at a2
+
 /-- **For any linear order** `T` (Mathlib's `LinearOrder`): `Score T` and `Error T` are lawful total
     orders, `Score` is `T`'s order and `Error` its reverse — in `cmp` and in the operators. -/
 theorem any_linear_order (T : Type) [LinearOrder T] :
